@@ -3,7 +3,10 @@
    so the theorems about all micro-step schedules cover everything the harness can drive.
    poll = one ManualBackendWorker::poll_one(): read every queue (yield point 3 before each), then either
    process the event with the lowest timestamp (yield 5) or the idle stage (yields 6, 8; emptiness check;
-   clean-up of invalidated loggers). Frontend calls can be injected at the yield points.
+   clean-up of invalidated loggers). Frontend calls can be injected at the yield points, and inside the clean-up loop at the
+   destruction of a sink by the backend (key 100 + sink name): the destructor of a user sink is user code that runs on the
+   backend thread, under the LoggerManager lock, between two iterations of the loop; what other threads do meanwhile are
+   the frontend micro-steps scheduled right after the iteration (BClean1) that destroyed the sink.
    Definitions only. *)
 From Coq Require Import List NArith Arith Bool.
 From Quill Require Import Registry.RegModel.
@@ -38,7 +41,32 @@ Definition min_front (s : st) : option nat :=
   match min_front_aux (ths s) O None with Some (i, _) => Some i | None => None end.
 
 Definition read_all_ops (s : st) (t : nat) : list mop := repeat (BRead t) (length (t_q (th s t))).
-Definition clean_all_ops (s : st) : list mop := BClean0 :: repeat BClean1 (length (lgs s)) ++ [BClean2].
+
+(* injections at a sink destructor. The erase of a logger (one BClean1 step) releases its sinks in list order; the point
+   "inside the destructor of sink x" is the end of that step exactly when no other sink can be released after x in the
+   same erase: x is the last sink of every logger ever created over it. Only then does the injection fire (in the driver
+   and here alike). Calls that need the LoggerManager lock are disabled steps there (the backend holds it). *)
+Definition last_sink (l : list N) : N := last l 0.
+Definition dtor_fires (s : st) (x : N) : bool :=
+  forallb (fun L => negb (memN x (l_sinks L)) || (last_sink (l_sinks L) =? x)) (glog s).
+Definition sink_name_of (s : st) (x : N) : N :=
+  match find (fun e => e_uid e =? x) (stab s) with Some e => e_name e | None => 0 end.
+(* s0 -> s1 is one backend step; the sinks it destroyed are the new entries of dlog *)
+Definition dtor_inj (inj : list (N * list mop)) (s0 s1 : st) : list mop :=
+  flat_map (fun x => if dtor_fires s1 x then inj_of inj (100 + sink_name_of s1 x) else [])
+           (skipn (length (dlog s0)) (dlog s1)).
+Fixpoint clean_loop (K : cfg) (inj : list (N * list mop)) (n : nat) (s : st) : list mop :=
+  match n with
+  | O => []
+  | S n' =>
+      let s1 := mstep K s BClean1 in
+      let oi := dtor_inj inj s s1 in
+      BClean1 :: oi ++ clean_loop K inj n' (mrun K s1 oi)
+  end.
+(* injected calls cannot add loggers while the loop runs (create_or_get_logger is disabled), so length (lgs s) iterations
+   reach the end of the vector *)
+Definition clean_all_ops (K : cfg) (inj : list (N * list mop)) (s : st) : list mop :=
+  BClean0 :: clean_loop K inj (length (lgs s)) (mstep K s BClean0) ++ [BClean2].
 
 (* the micro-steps of one poll_one() from state s *)
 Definition read_phase (K : cfg) (inj : list (N * list mop)) (nt : nat) (s : st) : st * list mop :=
@@ -56,7 +84,7 @@ Definition poll_ops (K : cfg) (inj : list (N * list mop)) (s : st) : list mop :=
     if all_tb_empty s2 then
       let o68 := inj_of inj 6 ++ inj_of inj 8 in
       let s3 := mrun K s2 o68 in
-      o68 ++ (if guard K s3 then clean_all_ops s3 else [])
+      o68 ++ (if guard K s3 then clean_all_ops K inj s3 else [])
     else
       let o5 := inj_of inj 5 in
       let s3 := mrun K s2 o5 in
@@ -77,7 +105,7 @@ Fixpoint exec (K : cfg) (s : st) (cs : list cmd) : st :=
   end.
 
 (* ------------------------------------------------------------------ decoding
-   commands: 11 n (y ntok tok..)*n poll with injections | 12 poll | 13 t ntok tok.. simple commands if thread t is free
+   commands: 11 n (y ntok tok..)*n poll with injections (y = 1, 30+t, 5, 6, 8: yield points; 100+name: destructor of the sink of that name) | 12 poll | 13 t ntok tok.. simple commands if thread t is free
    simple commands: 1 h name | 2 h | 3 v name k h1..hk | 4 v name | 5 t v m | 6 v | 7 t v | 8 t | 9 | 10 *)
 Fixpoint take_n (k : nat) (l : list N) : list N * list N :=
   match k with
